@@ -238,6 +238,7 @@ struct World {
     int teardown_style = 0;
     bool keep_refs = true;
     uint64_t boundary_id = 0;
+    bool quiescent_real = false;   // the current quiescent point is a real poll (not the end of the start pass)
     bool c07_looping_at_entry = false;
     std::map<int, int> c07_active_before;
     std::vector<AutoReg> autoclose_regs;
